@@ -176,17 +176,27 @@ VlogRtClauses(pre, c, out, post, ret, r) ==
 (* EBLIF (C18): flat designs.  ECanon keeps the top model's ports, the instances (name = .cname, model,    *)
 (* statement type, parameters) and the nets AS SETS OF PINS (net names are not compared: .conn merges and  *)
 (* the writer's generated names change them), and the declared primitive models with port directions.      *)
-EInfoOf(d) ==      \* a design says type through k ("g" = .gate) and .param INIT through props
+RECURSIVE Ones(_), Zeros(_)
+Ones(n) == IF n = 0 THEN "" ELSE "1" \o Ones(n - 1)
+Zeros(n) == IF n = 0 THEN "" ELSE "0" \o Zeros(n - 1)
+EInfoOf(d, nin) ==  \* a design says the statement type through k ("g" = .gate, "n" = .names, "l" = .latch), an attribute
+    \* through k as well (k = "u" / "v": .attr A u), .param INIT - or the cover lines of a .names - through props
     IF d.eb # NoVal THEN d.eb
-    ELSE "type=" \o (IF d.k = "g" THEN "gate" ELSE IF d.k = "l" THEN "latch" ELSE "subckt") \o ";cname=" \o d.name
-         \o (IF d.props = NoVal THEN "" ELSE ";param:INIT=" \o d.props)
+    ELSE "type=" \o (IF d.k = "g" THEN "gate" ELSE IF d.k = "l" THEN "latch" ELSE IF d.k = "n" THEN "names" ELSE "subckt")
+         \o ";cname=" \o d.name
+         \o (IF d.k = "n"
+             THEN ";covers=" \o (IF d.props = NoVal THEN "" ELSE IF nin = 0 THEN "1 "
+                                 ELSE IF d.props = "v0" THEN Ones(nin) \o " 1" ELSE Zeros(nin) \o " 1|" \o Ones(nin) \o " 1")
+             ELSE "")
+         \o (IF d.k \in {"u", "v"} THEN ";attr:A=" \o d.k ELSE "")
+         \o (IF d.props = NoVal \/ d.k = "n" THEN "" ELSE ";param:INIT=" \o d.props)
 ETop(s, n) == s.instRef[s.nlTop[n]]
 EPinsOfWire(s, w) == {EndpointOf(s, r) : r \in {rr \in SeqSet(s.wirePins[w]) : rr.k \in {"i", "o"}}}
 ECanon(s, n) ==
     LET top == ETop(s, n) IN
     [name  |-> s.defData[top].name,
      ports |-> {PortCanon(s, p) : p \in SeqSet(s.defPorts[top])},
-     insts |-> {[name |-> s.instData[i].name, model |-> NameOfD(s, s.instRef[i]), info |-> EInfoOf(s.instData[i])] :
+     insts |-> {[name |-> s.instData[i].name, model |-> NameOfD(s, s.instRef[i]), info |-> EInfoOf(s.instData[i], IF s.instRef[i] = None THEN 0 ELSE Len(s.defPorts[s.instRef[i]]) - 1)] :
                    i \in SeqSet(s.defKids[top])},
      nets  |-> {g \in {EPinsOfWire(s, w) : w \in UNION {SeqSet(s.cabWires[c]) : c \in SeqSet(s.defCables[top])}} : g # {}},
      prims |-> {[name |-> s.defData[d].name,
